@@ -397,6 +397,47 @@ def rule_cache_invalidation(ctx):
                                    '%s changes the particles and raises %s, but not when %s runs with %s = 0 (site conditions: %s): %s keeps advancing its cached coordinates and the change is lost, while safe mode picks it up'
                                    % (fname, fl, enum, safe, ' ; '.join(' && '.join(render(c_) for c_ in pc.get(id(x), [])) or 'unconditional' for x in es), f))
                     samples.append('%s %s under %s: %s' % (fname, fl, enum, verdicts))
+    # last-seen-value idiom inside the integrators: `if (seen OP now) { seen = now; ...; flag = 1; }` notices every change of
+    # the particle count only with OP `!=` (removals shrink it, additions grow it; both leave the cached coordinates stale)
+    n12 = 0
+    for f in files:
+        try:
+            tu = cfront.load_tu(f)
+        except Exception:
+            continue
+        for fname in sorted(tu.funcs):
+            fn = tu.func(fname)
+            if cfront.body(fn) is None:
+                continue
+            L = None
+            for ifs in walk(cfront.body(fn)):
+                if ifs.get('kind') != 'IfStmt':
+                    continue
+                c = strip(ifs['inner'][0])
+                if not (c.get('kind') == 'BinaryOperator' and c.get('opcode') in ('!=', '<', '>', '<=', '>=', '==')):
+                    continue
+                raises = [e for e in walk(ifs['inner'][1]) if cfront.is_assign(e) and (_canon_member(e['inner'][0]) or '') in consumers and render(e['inner'][1]) == '1']
+                if not raises:
+                    continue
+                if L is None:
+                    from . import extents
+                    L = extents.lets(fn)
+                a, b = render(c['inner'][0]), render(c['inner'][1])
+                copies = [e for e in walk(ifs['inner'][1]) if cfront.is_assign(e) and e.get('opcode') == '=' and {render(e['inner'][0]), render(e['inner'][1])} == {a, b}]
+                if not copies:
+                    continue
+                # the block must own a cache of coordinates: it (re)allocates an array of particles
+                owns = [e for e in walk(ifs['inner'][1]) if cfront.is_assign(e) and 'struct reb_particle *' in cfront.qtype(e['inner'][0])
+                        and any(x.get('kind') == 'CallExpr' and callee_name(x) in ('realloc', 'malloc', 'calloc') for x in walk(e['inner'][1]))]
+                if not owns:
+                    continue
+                n12 += 1
+                if c['opcode'] != '!=':
+                    ctx.report('R09.10', '%s:lastseen:%s' % (fname, _canon_member(raises[0]['inner'][0]).split('.', 1)[1]), 'src/%s:%s %s' % (f, line_of(ifs), fname),
+                               'the cached coordinates are declared stale only when %s %s %s, but the block records the new value as the one last seen: a change of the particle count in the other direction (%s) goes unnoticed and the integrator advances coordinates of particles that no longer exist'
+                               % (a, c['opcode'], b, 'a removal' if c['opcode'] in ('<', '<=') else 'an addition'))
+    anchor(n12 >= 1, 'last-seen particle count test that raises a recalculate_coordinates flag (WHFast init)')
+    n += n12
     ctx.covered('R09.10', 'functions outside the integrators that raise a recalculate_coordinates flag x integrators reading that flag: raised in deferred mode', n, floor=4, samples=samples[:8])
 
 
@@ -562,8 +603,64 @@ def rule_python_snapshot_pickup(ctx):
     ctx.covered('R09.7', 'Python getSimulation: keep_unsynchronized of WHFast and SABA set before the first synchronising call in every branch, and only on the integrator whose safe_mode was examined (R09.8)', n, floor=2, samples=samples)
 
 
+def rule_exact_finish(ctx, rule='R09.11'):
+    """R09.11: reb_check_exit shortens the last step of an exact_finish_time integration right after a synchronise. With
+    keep_unsynchronized that synchronise is undone and the shortened step starts from the cached mid-step state of the
+    full step, so the C code relies on its caller: whoever asks for exact_finish_time = 1 must have switched
+    keep_unsynchronized off. Simulationarchive.getSimulation is that caller in the Python layer. The function is
+    evaluated for every (mode, integrator, safe_mode, keep_unsynchronized argument) combination."""
+    import ast
+    from .. import pyfront
+    from . import pyeval
+    db = pyfront.pydb()
+    path = [p for p in db.files if p.endswith('simulationarchive.py')]
+    anchor(path, 'rebound/simulationarchive.py')
+    fn = None
+    for node in ast.walk(db.files[path[0]]):
+        if isinstance(node, ast.FunctionDef) and node.name == 'getSimulation':
+            fn = node
+    anchor(fn is not None, 'Simulationarchive.getSimulation')
+    # the synchronise + shortened step in reb_check_exit, and the switches the synchronise routines honour
+    tu = cfront.load_tu('rebound.c')
+    ce = tu.func('reb_check_exit')
+    short = [e for e in walk(cfront.body(ce)) if cfront.is_assign(e) and render(e['inner'][0]) == 'r.dt']
+    anchor(short, 'reb_check_exit shortens r->dt for exact_finish_time')
+    modes = None
+    for c in ast.walk(fn):
+        if isinstance(c, ast.Compare) and isinstance(c.left, ast.Name) and c.left.id == 'mode' and isinstance(c.ops[0], (ast.NotIn, ast.In)):
+            modes = [e.value for e in c.comparators[0].elts if isinstance(e, ast.Constant)]
+    anchor(modes and len(modes) >= 3, 'getSimulation: list of accepted modes')
+    subs = {'whfast': 'sim.ri_whfast', 'saba': 'sim.ri_saba'}
+    n = 0
+    bad = {}
+    samples = []
+    for integ in ('whfast', 'saba', 'mercurius', 'ias15'):
+        dom = {'mode': modes, 'keep_unsynchronized': [0, 1], 'sim.integrator': [integ], 't': [pyeval.UNK]}
+        for sub in ('sim.ri_whfast', 'sim.ri_saba', 'sim.ri_mercurius'):
+            dom[sub + '.safe_mode'] = [0, 1] if sub.endswith(integ) else [1]
+        for env, r in pyeval.paths(fn, dom, late={'sim'}):
+            for ln, callee, kw, snap in r.events:
+                if not callee.endswith('.integrate'):
+                    continue
+                n += 1
+                eft = kw.get('exact_finish_time', 0)
+                if eft == 0 or integ not in subs:
+                    continue
+                keep = snap.get(subs[integ] + '.keep_unsynchronized', pyeval.UNK)
+                if keep != 0:
+                    bad.setdefault((ln, integ), []).append('mode=%s keep_unsynchronized=%s safe_mode=%s -> exact_finish_time=%s with %s.keep_unsynchronized=%s'
+                                                           % (env['mode'], env['keep_unsynchronized'], env[subs[integ] + '.safe_mode'], eft, subs[integ], keep))
+        samples.append('%s: evaluated' % integ)
+    for (ln, integ), why in sorted(bad.items()):
+        ctx.report(rule, 'getSimulation:exact:%s' % integ, 'rebound/simulationarchive.py:%s Simulationarchive.getSimulation' % ln,
+                   'integrate(..., exact_finish_time=1) is reached with keep_unsynchronized still on (%s; %d combinations): reb_check_exit (src/rebound.c:%s) shortens the last step after a synchronise that is undone, so the shortened step starts from the mid-step state of the full step'
+                   % (why[0], len(why), line_of(short[0])))
+    ctx.covered(rule, 'getSimulation evaluated over mode x integrator x safe_mode x keep_unsynchronized: exact_finish_time=1 only with the switch off', n, floor=16, samples=samples)
+
+
 def run(ctx):
     rule_python_snapshot_pickup(ctx)
+    rule_exact_finish(ctx)
     rule_frames(ctx)
     rule_equivalence(ctx)
     rule_keep_unsynchronized(ctx)
